@@ -84,7 +84,7 @@ Proof. split; vm_compute; reflexivity. Qed.
 Lemma exceptional_models_ok : forallb fixed_ok exceptional_models = true.
 Proof. vm_compute. reflexivity. Qed.
 
-(* ---- the connection-scheme axis: which architectures admit connections='unique' *)
+(* ---- the connection-scheme axis: which architectures can be wired with connections='unique' *)
 Lemma pairs_mono : forall P0 P, 0 <= P0 <= P -> pairs P0 <= pairs P.
 Proof.
   intros P0 P H. unfold pairs. apply Z.div_le_mono; [lia|].
@@ -137,7 +137,7 @@ Lemma ClgnCifar10Res_5_unique : forall k, 1 <= k -> unique_all (ClgnCifar10Res_n
 Lemma ClgnCifar10Tiny_unique : forall k, 1 <= k -> unique_all (ClgnCifar10Tiny_layers k). Proof. unique_scheme. Qed.
 Lemma CNN_unique : forall k, 1 <= k -> unique_all (CNN_layers k). Proof. unique_scheme. Qed.
 
-(* ClgnCifar10Mini ends with LogicDense(128 k -> 60 k): 128 k > 2 * 60 k, so no scale admits the 'unique' scheme (finding F51) *)
+(* ClgnCifar10Mini ends with LogicDense(128 k -> 60 k): 128 k > 2 * 60 k, so no scale supports the 'unique' scheme (finding F51) *)
 Lemma ClgnCifar10Mini_unique_refuted : forall k, 1 <= k -> ~ unique_all (ClgnCifar10Mini_layers k).
 Proof.
   intros k Hk H. cbv [unique_all unique_ok ClgnCifar10Mini_layers] in H.
@@ -171,7 +171,7 @@ Proof. dense_unique 768 11795712. Qed.
 Lemma Dlgn_generic_unique : forall k, 1 <= k -> (unique_all (Dlgn_generic_layers k) <-> 2 <= k <= 16).
 Proof. dense_unique 2 16. Qed.
 
-(* fixed-scale classes: every one admits 'unique' except the four ClgnCifar10Mini sizes *)
+(* fixed-scale classes: every one supports 'unique' except the four ClgnCifar10Mini sizes *)
 Definition fixed_unique : list bool := map (fun m => unique_all_b (fst m)) fixed_models.
 Lemma fixed_unique_ok :
   fixed_unique = [true; true; true; true; true; true; true; true; true; true; true; true; true;
